@@ -1,8 +1,8 @@
 (* C06 / C07 / C08: the binding theorem for one index space.  For every item vector with pairwise distinct stored
-   ids, outside the known classes D06 (a later-region import that is deleted), D26 (a converted original import
-   that is deleted) and D02 (import section order differs from the order of the import items), every live item's
-   id is mapped to the index at which Wasm's index rule (imports of that kind in import-section order, then the
-   locally defined ones in section order) finds that very item. *)
+   ids, outside the known class D02 (import section order differs from the order of the import items), every live
+   item's id is mapped to the index at which Wasm's index rule (imports of that kind in import-section order, then
+   the locally defined ones in section order) finds that very item.  (Before the repair of D06 / D26 the theorem
+   needed two more premises: no deleted later-region import, no deleted converted original import.) *)
 From Coq Require Import List Arith NArith Bool Lia Permutation.
 Import ListNotations.
 From Orca Require Import Reindex Reorg ReidxProofs.
@@ -17,27 +17,21 @@ Hypothesis Hnd : NoDup (map it_id l).
 Notation first := (firstn orig l).
 Notation later := (skipn orig l).
 
-(* not D06 / not D26 *)
-Hypothesis noD06 : forall i, In i later -> is_import i = true -> it_del i = false.
-Hypothesis noD26 : forall i, In i first -> is_local i = true -> it_del i = false.
-
-Definition Ipart : list item := filter keepA first ++ filter is_import later.
-Definition Lpart : list item := filter keepC later ++ filter is_local first.
+Definition Ipart : list item := filter keepA first ++ filter keepA later.
+Definition Lpart : list item := filter keepC later ++ filter keepC first.
 
 Lemma spec_split : spec orig l = Ipart ++ Lpart.
 Proof. unfold spec, Ipart, Lpart. rewrite <- !app_assoc. reflexivity. Qed.
 
 Lemma Ipart_imports : forall i, In i Ipart -> is_import i = true /\ it_del i = false.
 Proof.
-  intros i H. unfold Ipart in H. apply in_app_or in H as [H|H]; apply filter_In in H as [Hin Hp].
-  - unfold keepA in Hp. apply andb_prop in Hp as [H1 H2]. split; [exact H1|]. destruct (it_del i); [discriminate|reflexivity].
-  - split; [exact Hp|]. apply noD06; assumption.
+  intros i H. unfold Ipart in H. apply in_app_or in H as [H|H]; apply filter_In in H as [Hin Hp];
+    unfold keepA in Hp; apply andb_prop in Hp as [H1 H2]; (split; [exact H1|]); destruct (it_del i); (discriminate || reflexivity).
 Qed.
 Lemma Lpart_locals : forall i, In i Lpart -> is_local i = true /\ it_del i = false.
 Proof.
-  intros i H. unfold Lpart in H. apply in_app_or in H as [H|H]; apply filter_In in H as [Hin Hp].
-  - unfold keepC in Hp. apply andb_prop in Hp as [H1 H2]. split; [exact H1|]. destruct (it_del i); [discriminate|reflexivity].
-  - split; [exact Hp|]. apply noD26; assumption.
+  intros i H. unfold Lpart in H. apply in_app_or in H as [H|H]; apply filter_In in H as [Hin Hp];
+    unfold keepC in Hp; apply andb_prop in Hp as [H1 H2]; (split; [exact H1|]); destruct (it_del i); (discriminate || reflexivity).
 Qed.
 
 Lemma filter_all {A} (p : A -> bool) (xs : list A) : (forall x, In x xs -> p x = true) -> filter p xs = xs.
@@ -134,16 +128,17 @@ Proof.
   - apply NoDup_map_filter. exact Hf.
   - intros a b Ha Hb. apply filter_In in Ha as [Ha _]. apply filter_In in Hb as [Hb _]. apply Hdisj; assumption.
   - intros a b Ha Hb. apply filter_In in Ha as [Ha _]. apply filter_In in Hb as [Hb _]. apply Hdisj; assumption.
-  - apply (Same keepA is_local first Hf). intros x Hx1 Hx2. unfold keepA in Hx1. apply andb_prop in Hx1 as [Hx1 _].
-    rewrite (import_not_local x Hx1) in Hx2. discriminate.
-  - apply (Same is_import keepC later Hl). intros x Hx1 Hx2. unfold keepC in Hx2. apply andb_prop in Hx2 as [Hx2 _].
-    rewrite (import_not_local x Hx1) in Hx2. discriminate.
+  - apply (Same keepA keepC first Hf). intros x Hx1 Hx2. unfold keepA in Hx1. apply andb_prop in Hx1 as [Hx1 _].
+    unfold keepC in Hx2. apply andb_prop in Hx2 as [Hx2 _]. rewrite (import_not_local x Hx1) in Hx2. discriminate.
+  - apply (Same keepA keepC later Hl). intros x Hx1 Hx2. unfold keepA in Hx1. apply andb_prop in Hx1 as [Hx1 _].
+    unfold keepC in Hx2. apply andb_prop in Hx2 as [Hx2 _]. rewrite (import_not_local x Hx1) in Hx2. discriminate.
   - intros a b Ha Hb E. apply filter_In in Ha as [Ha _]. apply filter_In in Hb as [Hb _]. apply (Hdisj b a Hb Ha). symmetry. exact E.
   - intros a b Ha Hb E. apply filter_In in Ha as [Ha _]. apply filter_In in Hb as [Hb _]. apply (Hdisj b a Hb Ha). symmetry. exact E.
 Qed.
 
 (* [import_fps]: the fingerprints of this kind's live imports in import-section order.  Not D02 (and the import
-   list is linked to the items) = they come in the order of the import items of the index space. *)
+   list is linked to the items) = they come in the order of the import items of the index space.
+   Proofs/ReidxInv.v derives this premise, for every reachable state, from the executable predicate okD02. *)
 Variable import_fps : list N.
 Hypothesis noD02 : import_fps = map it_fp Ipart.
 
@@ -169,11 +164,7 @@ Qed.
 
 (* ... and no index designates a deleted item: nothing deleted is left in the index space *)
 Theorem no_deleted_left : forall it, In it (spec orig l) -> it_del it = false.
-Proof.
-  intros it H. rewrite spec_split in H. apply in_app_or in H as [H|H].
-  - apply (Ipart_imports it H).
-  - apply (Lpart_locals it H).
-Qed.
+Proof. intros it H. exact (spec_no_deleted orig l it H). Qed.
 End Bind.
 
 Print Assumptions binding.
